@@ -109,6 +109,8 @@ def allocation(chk, Fs):
             if c is None:
                 offenders.append((site, 'indirect call'))
                 continue
+            if t['t'] is None and (c['path'].startswith('std::panicking::') or c['path'].startswith('std::rt::') or c['path'].startswith('core::panicking::')):
+                continue            # a panic entry point: panic paths are excluded from the allocation clause and enumerated as panic sites
             kr = c.get('resolved_krate') or c['krate']
             path = c.get('resolved') or c['path']
             by_crate[kr] = by_crate.get(kr, 0) + 1
@@ -171,7 +173,8 @@ def panic_sites(F):
             elif t['k'] == 'call' and t['f'].get('fn'):
                 c = t['f']['fn']
                 p = c['path']
-                if p.startswith('core::panicking::') or p.startswith('std::rt::begin_panic'):
+                if p.startswith('core::panicking::') or p.startswith('std::rt::begin_panic') or p.startswith('std::panicking::') \
+                        or (t['t'] is None and not c.get('local') and not c.get('trait')):
                     out.append(((k, bi, 't'), 'panic-call', p.split('::')[-1]))
                 elif p in ('core::option::Option::<T>::expect', 'core::option::Option::<T>::unwrap',
                            'core::result::Result::<T, E>::expect', 'core::result::Result::<T, E>::unwrap',
